@@ -87,6 +87,16 @@ def _observe(m, kind, data, seed, state, with_dict, rec):
                 rec['pdf'] = _out(outcome(m.probability_density, rows))
                 rec['cdf'] = _out(outcome(m.cumulative_distribution, rows))
             rec['seeded_sample'] = _seeded(m, seed, lambda: m.sample(3))
+            if rows is not None and rows.shape[1] >= 2:
+                # conditional sampling addresses the correlation by label
+                first, last = rows.columns[0], rows.columns[-1]
+                cond = {last: float(rows[last].iloc[0])}
+                rec['seeded_conditional_sample'] = _seeded(
+                    m, seed + 1, lambda: m.sample(2, conditions=cond))
+                if rows.shape[1] >= 3:
+                    cond2 = {last: float(rows[last].iloc[1]), first: float(rows[first].iloc[1])}
+                    rec['seeded_conditional_sample_2'] = _seeded(
+                        m, seed + 2, lambda: m.sample(2, conditions=cond2))
         elif kind == 'vine':
             if with_dict:
                 rec['to_dict'] = _out(outcome(m.to_dict))
